@@ -1,13 +1,14 @@
 //! C36 — run-time half (Oracle B): "an accepted manifest never fails at run time because of an unknown or
 //! already-consumed bucket or proof".
 //!
-//! Programs: every body of length <= L (quick 4, thorough 6; level by level, so a wall cap leaves a uniform bound) over the bucket / proof lifecycle alphabet `Op`, for V1
+//! Programs: every body of length <= L (quick 4, thorough 5; C36RT_LEN overrides; level by level, so that a wall cap
+//! would leave a uniform completed bound) over the bucket / proof lifecycle alphabet `Op`, for V1
 //! and V2 transaction manifests. The alphabet at a position is computed from the number of buckets / proofs the body
 //! has created so far (a purely syntactic count): every id created so far - consumed or not - plus the first id
 //! that does not exist. A body is embedded in
 //!     header : lock_fee(faucet); A.withdraw(F, 8)  [worktop pre-funded: every TAKE_FROM_WORKTOP F 1 succeeds];
-//!              A.create_proof_of_amount(F, 1) x (L+1)  [auth zone pre-filled: every POP / proof-from-auth-zone succeeds
-//!              until the body itself empties the zone]
+//!              A.create_proof_of_amount(F, 1) x 3  [auth zone pre-filled: POP / proof-from-auth-zone succeed until the
+//!              body itself has emptied the zone]
 //!     closing: DROP_ALL_PROOFS; RETURN_TO_WORKTOP for every bucket the REAL interpreter reports live after the body
 //!              (from its visitor events); A.try_deposit_batch_or_abort(ENTIRE_WORKTOP)
 //! so that bodies that leave buckets behind are still complete, acceptable manifests. The whole manifest (header +
@@ -256,6 +257,9 @@ fn static_check(env: &Env, kind: Kind, ops: &[Op]) -> Result<Static, String> {
     }
 }
 
+/// proofs of F placed in the auth zone before the body (each costs one account call per transaction)
+const HEADER_PROOFS: usize = 3;
+
 const IDENTITY_MARKERS: [&str; 6] = ["BucketNotFound", "ProofNotFound", "AlreadyTaken", "AlreadyConsumed", "BucketAlreadyUsed", "ProofAlreadyUsed"];
 
 /// The clause: Some(marker) when the receipt carries a bucket / proof identity error.
@@ -379,7 +383,7 @@ fn replay(ctx: Ctx) -> ! {
     let kind = case["kind"].as_str().and_then(Kind::parse).unwrap_or(Kind::V1);
     let ops: Vec<Op> = case["ops"].as_array().map(|a| a.iter().filter_map(|x| x.as_str().and_then(parse_op)).collect()).unwrap_or_default();
     println!("C36 run-time replay: {} body {:?}", kind.name(), ops);
-    let env = build_env(ops.len() + 1);
+    let env = build_env(HEADER_PROOFS);
     let c = Counters::default();
     let mut l = Local::new();
     evaluate(&env, kind, &ops, &mut l, &c, true);
@@ -391,9 +395,9 @@ pub fn run(ctx: Ctx) -> ! {
     if ctx.replay.is_some() {
         replay(ctx);
     }
-    let max_len: usize = std::env::var("C36RT_LEN").ok().and_then(|s| s.parse().ok()).unwrap_or(ctx.pick(4, 6));
-    let wall_cap_s: f64 = std::env::var("C36RT_WALL_CAP_S").ok().and_then(|s| s.parse().ok()).unwrap_or(ctx.pick(45.0, 1100.0));
-    let env = build_env(max_len + 1);
+    let max_len: usize = std::env::var("C36RT_LEN").ok().and_then(|s| s.parse().ok()).unwrap_or(ctx.pick(4, 5));
+    let wall_cap_s: f64 = std::env::var("C36RT_WALL_CAP_S").ok().and_then(|s| s.parse().ok()).unwrap_or(ctx.pick(55.0, 1100.0));
+    let env = build_env(HEADER_PROOFS);
     let c = Counters::default();
     let capped = AtomicBool::new(false);
 
@@ -487,7 +491,7 @@ one bucket / proof id (every run-time id lookup of the body was exercised)";
         cov,
         &[
             "run-time half of C36: V1 and V2 transaction manifests without children (YIELD_TO_CHILD / subintents are not executed)",
-            "one fungible resource; the worktop holds 8 F and the auth zone L+1 proofs of F before the body, so TAKE / POP / proof creation do not fail for lack of resources unless the body removed them",
+            "one fungible resource; the worktop holds 8 F and the auth zone 3 proofs of F before the body, so TAKE / POP / proof creation do not fail for lack of resources unless the body removed them",
             "bucket/proof identity errors = TransactionProcessorError::BucketNotFound / ProofNotFound (consumed ids are removed from the processor's maps, so 'already consumed' raises the same errors)",
         ],
     )
